@@ -59,7 +59,10 @@ def check(case):
 
 @st.composite
 def cases(draw, max_feats=14):
-    return {"model": draw(S.model_specs(S.JSON, 1, max_feats)), "cycles": draw(st.integers(3, 4))}
+    m_ = draw(S.model_specs(S.JSON, 1, max_feats))
+    if draw(st.integers(0, 9)) == 0:
+        S.concatenation_twins(draw, m_)
+    return {"model": m_, "cycles": draw(st.integers(3, 4))}
 
 
 def _plain(n):
@@ -97,7 +100,15 @@ def classes(case):
     return out
 
 
+@st.composite
+def big_cases(draw):
+    """Models of several hundred features (files of tens of kilobytes): block-wise or incremental readers/writers."""
+    return {"model": draw(S.model_specs(S.JSON, 60, 120)), "cycles": 3}
+
+
 SUBS = [
+    Sub("big-models", check, gen=lambda tier: big_cases(), nontrivial=lambda case: True, classes=lambda case: {"big-model"},
+        n={"quick": 2, "thorough": 30}, shards={"quick": 8, "thorough": 16}),
     Sub("roundtrip", check, gen=lambda tier: cases(), nontrivial=nontrivial, classes=classes,
         n={"quick": 300, "thorough": 5000},
         essential=["odd-name", "attrs", "abstract", "rel:mutex", "rel:cardinal", "op:XOR", "op:EXCLUDES", "op:NOT"]),
